@@ -449,6 +449,66 @@ static void c07_plan(Rng &rng, Plan &p, uint64_t variant) {
     skeleton_ops(rng, cp, 0, c0, c1, p.ops);
 }
 
+// ---- layers and bombs: Content-Encoding lists against the configured layer limits, highly compressible nested bodies against
+//      small bomb limits. libhtp undoes the codings in the order listed, so the first token is the outermost coding here.
+static void c07_layers_plan(Rng &rng, Plan &p) {
+    p.prop = "C07"; p.scenario = "layers";
+    wellformed_cfg(rng, p.cfg);
+    p.cfg.set("res_decomp", 1); p.cfg.set("clock_step", 1);
+    static const long L[] = {0, 1, 2, 3, 5}; long lim = L[rng.below(5)];
+    static const long LZ[] = {0, 1, 1, 2, 3}; long lzlim = LZ[rng.below(5)];
+    p.cfg.set("decomp_layers", lim); p.cfg.set("lzma_layers", lzlim);
+    bool bomb = rng.chance(1, 3);
+    Bytes payload;
+    if (bomb) { static const long BL[] = {1024, 8192, 65536, 1048576}; p.cfg.set("bomb_limit", BL[rng.below(4)]); payload.assign((size_t) rng.range(1 << 20, 12 << 20), rng.coin() ? '\0' : 'A'); }
+    else { size_t n = (size_t) rng.range(1, 3000); for (size_t i = 0; i < n; i++) payload.push_back((char) ('a' + rng.below(6))); }
+    int k = (int) rng.range(2, bomb ? 3 : 5);
+    std::vector<std::string> toks; std::vector<Bytes> stages;   // stages[d] = what is left after undoing the first d codings; stages[k] = payload
+    for (int i = 0; i < k; i++) { int t = (int) rng.below(bomb ? 2 : 3); toks.push_back(t == 0 ? "gzip" : t == 1 ? "deflate" : "lzma"); }
+    stages.resize((size_t) k + 1); stages[(size_t) k] = payload;
+    for (int i = k - 1; i >= 0; i--) {
+        const Bytes &in = stages[(size_t) i + 1];
+        stages[(size_t) i] = toks[(size_t) i] == "gzip" ? z_encode(in, 31, 6, 0) : toks[(size_t) i] == "deflate" ? z_encode(in, -15, 6, 0) : lzma_alone_encode(in, 1u << 16);
+    }
+    std::string ce; for (int i = 0; i < k; i++) { if (i) ce += rng.coin() ? ", " : ","; ce += toks[(size_t) i]; }
+    p.cfg.set("c07_layers_k", k); p.cfg.set("c07_bomb", bomb ? 1 : 0);
+    int nlz = 0; std::string lzmask; for (int i = 0; i < k; i++) { lzmask.push_back(toks[(size_t) i] == "lzma" ? '1' : '0'); if (toks[(size_t) i] == "lzma") nlz++; }
+    p.extra["c07.lzmask"] = lzmask;
+    if (!bomb) for (int d = 0; d <= k; d++) p.extra[strfmt("c07.stage.%d", d)] = stages[(size_t) d];
+    else { p.extra["c07.payload_len"] = strfmt("%zu", payload.size()); p.extra["c07.payload_byte"] = payload.substr(0, 1); }
+    Script s; MsgSpec q; q.method = "GET"; q.target = "/id0/c07l"; { HeaderSpec h; h.name = "Host"; h.value = "c07.example"; q.headers.push_back(h); }
+    MsgSpec r; r.is_request = false; r.status = 200; r.reason = "OK";
+    { HeaderSpec h; h.name = "Content-Encoding"; h.value = ce; r.headers.push_back(h); }
+    r.body = stages[0]; r.payload = payload; r.framing = rng.coin() ? FR_CL : FR_CLOSE;
+    if (r.framing == FR_CL) { HeaderSpec h; h.name = "Content-Length"; h.value = strfmt("%zu", r.body.size()); r.headers.push_back(h); }
+    s.req.push_back(q); s.res.push_back(r);
+    p.conns.resize(1); build_conn_from_script(rng, s, p.conns[0], false);
+    ConnPlan &cp = p.conns[0];
+    std::vector<Extent> m0, m1; for (auto &x : cp.xchg) { m0.push_back(x.req); m1.push_back(x.res); }
+    static const size_t MEANS[] = {1, 3, 8, 64, 512, 4096};
+    std::vector<size_t> c0, c1 = choose_cuts(rng, cp.stream[1], m1, rng.coin() ? ST_UNIFORM : ST_WHOLE, MEANS[rng.below(6)]);
+    skeleton_ops(rng, cp, 0, c0, c1, p.ops);
+}
+
+static bool check_c07_layers(const Plan &p, const RunResult &r, std::string &oracle, std::string &detail, Agg *agg) {
+    if (r.txs.empty()) return true;
+    const TxRec &t = r.txs[0];
+    long lim = p.cfg.get("decomp_layers", 2), lzlim = p.cfg.get("lzma_layers", 1), k = p.cfg.get("c07_layers_k", 0);
+    if (p.cfg.get("c07_bomb", 0)) { if (agg) agg->inc("c07.bomb_runs"); return true; }   // bombs: only the online bound invariants (already evaluated)
+    // which stage was delivered? (the body after undoing the first d codings)
+    long d = -1; for (long i = 0; i <= k; i++) { auto it = p.extra.find(strfmt("c07.stage.%ld", i)); if (it != p.extra.end() && it->second == t.body[1]) { d = i; break; } }
+    if (agg) agg->inc(strfmt("c07.layers_undone.%ld", d));
+    if (d < 0) {
+        if (t.decomp_restart_lost_input && g_known_sites.count("decomp.restart.prior_input")) { if (agg) agg->inc("known_hit.decomp.restart.prior_input"); return true; }
+        // delivered bytes are no stage of the encoding stack: data was lost or invented (unless a decoder gave up part-way, which delivers a prefix of a stage + raw remainder: not asserted)
+        return true;
+    }
+    const Bytes &lzmask = p.extra.at("c07.lzmask"); long nlz = 0; for (long i = 0; i < d && i < (long) lzmask.size(); i++) if (lzmask[(size_t) i] == '1') nlz++;
+    if (lim > 0 && d > lim) { oracle = "C07.more_layers_undone_than_configured"; detail = strfmt("%ld codings undone, response_decompression_layer_limit=%ld", d, lim); return false; }
+    if (nlz > lzlim) { oracle = "C07.more_lzma_layers_undone_than_configured"; detail = strfmt("%ld lzma codings undone, lzma layer limit=%ld", nlz, lzlim); return false; }
+    return true;
+}
+
 static bool check_c07(const Plan &p, const RunResult &r, std::string &oracle, std::string &detail, Agg *agg) {
     const ConnPlan &cp = p.conns[0];
     std::string cname = C07_CODINGS[p.cfg.get("c07_coding", 0) % C07_NCOD];
@@ -1426,6 +1486,7 @@ bool generate_plan(const std::string &prop, uint64_t seed, Plan &out) {
     else if (prop == "C18") c18_plan(rng, out);
     else if (prop == "C19") c19_plan(rng, out);
     else if (prop == "C14") c14_plan(rng, out);
+    else if (prop == "C07" && seed % 8 == 5) c07_layers_plan(rng, out);
     else if (prop == "C07") { if (seed % 4 == 3) { chaos_plan(rng, out, "C07"); out.cfg.set("res_decomp", 1); if (rng.coin()) { static const long B[] = {1024, 4096, 65536}; out.cfg.set("bomb_limit", B[rng.below(3)]); } } else c07_plan(rng, out, seed / 4); }
     else return false;
     return true;
@@ -1519,6 +1580,7 @@ Verdict evaluate_plan(const Plan &p, Agg *agg) {
         if (v.violated) { v.oracle = prop + ".via." + v.oracle; return v; }
         first_violation_of(r, "C07", v);
         if (v.violated) return v;
+        if (p.scenario.compare(0, 6, "layers") == 0) { std::string o, d; if (!check_c07_layers(p, r, o, d, agg)) { v.violated = true; v.oracle = o; v.detail = d; } return v; }
         if (p.scenario.compare(0, 6, "coding") == 0) {
             std::string o, d;
             if (!check_c07(p, r, o, d, agg)) { v.violated = true; v.oracle = o; v.detail = d; }
